@@ -109,6 +109,12 @@ def gen_cases(rng, tier):
                 other = {"h": [[o, cnt] for o, cnt in other.get("h", [[gens.q(2), 1]]) if abs(Fraction(*o)) <= 4]}
             pair = [other, sc] if rng.random() < 0.6 else [sc, other]
             cases.append({"kind": "bin", "op": opi, "l": pair[0], "r": pair[1]})
+        if i % 25 == 3:
+            # powers of histograms that contain an outcome and its negative (even exponents fold them together)
+            vals = sorted(set(rng.sample(range(-3, 4), rng.randint(2, 5))) | {1, -1})
+            hh = {"h": [[gens.q(v), rng.choice([1, 1, 2, 3])] for v in vals]}
+            ex = {"s": gens.q(rng.choice([2, 2, 4, 3, 0])), "styp": rng.choice(["int", "Fraction"])}
+            cases.append({"kind": "bin", "op": "pow", "l": hh if rng.random() < 0.8 else {"p": [hh["h"]]}, "r": ex})
         if i % 10 == 6:
             # typed operands: bool outcomes (results of comparisons: ~True == -2, True + True == 2) and counts given
             # as NumPy integers large enough for products to leave the 64-bit range (counts are exact Python ints)
